@@ -6,6 +6,11 @@
 //!   sim eval <case.json>                   runs one case, prints the verdict (used by the shrinker)
 //!   sim shrink <in.json> <out.json>        minimises a failing case
 mod adapter;
+mod anycase;
+mod cli;
+mod dimacs_stream;
+mod proofcase;
+mod streams;
 mod exec;
 mod findings;
 mod gen;
@@ -19,7 +24,8 @@ mod supervisor;
 
 use std::io::Write;
 
-use exec::{Case, Violation};
+use anycase::AnyCase as Case;
+use exec::Violation;
 use json::J;
 use props::Tier;
 
@@ -104,7 +110,7 @@ fn cmd_eval(args: &[String]) {
     let text = std::fs::read_to_string(&args[0]).expect("read case");
     let j = J::parse(&text).expect("parse case");
     let case = Case::from_json(if j.get("case").is_some() { j.at("case") } else { &j });
-    let out = props::check_case(&case);
+    let out = case.check();
     match out.violation {
         Some(v) => println!("VIOL {}", violation_json(&v).to_string()),
         None => println!("OK"),
@@ -117,8 +123,8 @@ fn cmd_shrink(args: &[String]) {
     let j = J::parse(&text).expect("parse");
     let case = Case::from_json(j.at("case"));
     let v = violation_from(j.at("violation"));
-    let mut check = |c: &Case| props::check_case(c).violation;
-    let (best, bv, evals) = shrink::shrink(&case, &v, &mut check, 4000);
+    let mut check = |c: &Case| c.check().violation;
+    let (best, bv, evals) = shrink::shrink_any(&case, &v, &mut check, 4000);
     let out = J::obj(vec![("case", best.to_json()), ("violation", violation_json(&bv)), ("evals", J::u(evals as u64))]);
     std::fs::write(&args[1], out.to_string()).expect("write shrunk case");
 }
@@ -151,7 +157,7 @@ fn cmd_replay(args: &[String]) {
             }
         }
     }
-    let out = props::check_case(&case);
+    let out = case.check();
     let expect_trace = j.get("trace_id").map(|t| t.as_str().to_string());
     match out.violation {
         Some(v) if v.class.starts_with(&class) => {
